@@ -1,6 +1,5 @@
-(* Model of the comparison in semantic/version-packagist.go, on the parsed structure (the list of
-   dot-separated components).  No proofs here.  The canonicalisation regexes (front end) are NOT
-   modelled: component lists are taken from the implementation through the hook. *)
+(* Model of semantic/version-packagist.go: canonicalisation + split (front end) and the comparison of
+   the dot-separated components.  No proofs here. *)
 From Coq Require Import List ZArith NArith Bool.
 From Scalibr Require Import Semantic.Cmp Semantic.LexPad Semantic.Bytes Semantic.Generated_Tables.
 Import ListNotations.
@@ -54,6 +53,33 @@ Fixpoint pk_cmp (a b : list bytes) {struct a} : comparison :=
   | x :: a', y :: b' => match pk_elem_cmp x y with Eq => pk_cmp a' b' | c => c end
   end.
 
+(* ------------------------------------------------------------------ front end *)
+(* canonicalizePackagistVersion:
+     TrimPrefix "v" then TrimPrefix "V";  [-_+] -> ".";
+     ([^\d.])(\d) -> "$1.$2"  and then  (\d)([^\d.]) -> "$1.$2".
+   The two insertion passes match non-overlapping two-character windows and a window never ends in a
+   character that could start the next one, so together they put a '.' at EVERY boundary between a
+   digit and a character that is neither a digit nor '.', in either order.  Those classes are decided
+   by single bytes (the last byte of a rune before a digit, the first byte of a rune after one), so
+   this is a byte scan; unmatched bytes (also invalid UTF-8) are copied unchanged. *)
+Definition pk_sep_byte (c : N) : N := if (c =? 45) || (c =? 95) || (c =? 43) then 46 else c.
+Definition pk_other (c : N) : bool := negb (is_digit c) && negb (c =? 46).       (* [^\d.] *)
+
+Fixpoint pk_insert_dots (s : bytes) : bytes :=
+  match s with
+  | a :: ((c :: _) as r) =>
+    if (is_digit a && pk_other c) || (pk_other a && is_digit c) then a :: 46 :: pk_insert_dots r
+    else a :: pk_insert_dots r
+  | _ => s
+  end.
+
+Definition canonicalize_packagist (v : bytes) : bytes :=
+  pk_insert_dots (map pk_sep_byte (trim_prefix [86] (trim_prefix [118] v))).
+
+(* parsePackagistVersion *)
+Definition parse_packagist (s : bytes) : outcome packagist :=
+  Ok {| pk_original := s; pk_components := split_on 46 (canonicalize_packagist s) |}.
+
 Definition cmp_packagist (v w : packagist) : outcome comparison :=
   Ok (pk_cmp (pk_components v) (pk_components w)).
 
@@ -68,3 +94,8 @@ Definition valid_packagist (v : packagist) : bool := forallb pk_comp_ok (pk_comp
 
 Definition packagist_eqb (v w : packagist) : bool :=
   bytes_eqb (pk_original v) (pk_original w) && list_eqb bytes_eqb (pk_components v) (pk_components w).
+
+Definition compare_str_packagist (a b : bytes) : outcome comparison :=
+  obind (parse_packagist a) (fun v => obind (parse_packagist b) (fun w => cmp_packagist v w)).
+Definition valid_packagist_string (s : bytes) : bool :=
+  match parse_packagist s with Ok v => valid_packagist v | _ => false end.
